@@ -382,7 +382,13 @@ pub fn run_case(shard: &mut Shard, w: &mut World, case: &Case, ctx: &CaseCtx) ->
                 shard.count("c36:accepted_only_by_babylon_ruleset");
             }
             if lifecycle_err {
-                shard.violation_for("C36", "accepted-manifest-failed-with-unknown-or-consumed-id", detail(ctx, w, case, obs_json(json!({"ruleset": "babylon_equivalent"}))));
+                if case.v2 {
+                    // the babylon_equivalent ruleset is only meaningful for V1 instruction sets (V2-only
+                    // instructions such as ASSERT_BUCKET_CONTENTS are outside it): informational
+                    shard.count("c36:info:v2_manifest_accepted_by_babylon_ruleset_hit_id_error");
+                } else {
+                    shard.violation_for("C36", "accepted-manifest-failed-with-unknown-or-consumed-id", detail(ctx, w, case, obs_json(json!({"ruleset": "babylon_equivalent"}))));
+                }
             }
         }
         if lifecycle_err {
